@@ -122,28 +122,67 @@ def r17_1(ctx):
         for fn, ops in sorted(inv.items()):
             b = crate.by_id[fn]
             for op, cnt in ops.items():
-                e = per_file.setdefault(b.file, {}).setdefault(op, [0, b])
+                e = per_file.setdefault(b.file, {}).setdefault(op, [0, b, []])
                 e[0] += cnt
+                e[2] += [b.name] * cnt
+        # code that moved to another file keeps its function name: an operation in excess in file B, function f,
+        # is covered by the entry of a file A that names `f` and now has fewer sites than reviewed
+        spare = {}
+        for f, ops in want.items():
+            for op, e in ops.items():
+                left = e.get("count", 0) - per_file.get(f, {}).get(op, [0])[0]
+                if left > 0:
+                    spare[(f, op)] = [left, {seg.split(":")[0].strip() for seg in e.get("why", "").split(" | ")}]
+        moved_files = set()
         for f, ops in sorted(per_file.items()):
-            for op, (cnt, b) in sorted(ops.items()):
+            for op, (cnt, b, names) in sorted(ops.items()):
                 allowed = want.get(f, {}).get(op, {}).get("count", 0)
-                ok = cnt <= allowed
-                ctx.ob(f"{crate.kind}:{f}:{op}", ok, site(b), f"{cnt} site(s), reviewed: {allowed} — {want.get(f, {}).get(op, {}).get('why', 'NOT REVIEWED')[:300]}" if ok else f"unreviewed unsafe operation `{op}` in {f} ({cnt} site(s), {allowed} reviewed for this file)")
+                need = max(0, cnt - allowed)
+                donors = []
+                if need:
+                    for nm in sorted(names, key=lambda x: 0 if any(x in ent[1] for (g, o2), ent in spare.items() if o2 == op and g != f) else 1):
+                        if need == 0:
+                            break
+                        for (g, o2), ent in spare.items():
+                            if o2 == op and g != f and ent[0] > 0 and nm in ent[1]:
+                                ent[0] -= 1
+                                need -= 1
+                                donors.append(g)
+                                break
+                ok = need == 0
+                if donors and ok:
+                    moved_files.add(f)
+                why = want.get(f, {}).get(op, {}).get("why") or (want.get(donors[0], {}).get(op, {}).get("why") if donors else None) or "NOT REVIEWED"
+                note = f" ({len(donors)} moved here with their function from {sorted(set(donors))})" if donors else ""
+                ctx.ob(f"{crate.kind}:{f}:{op}", ok, site(b), f"{cnt} site(s), reviewed: {allowed}{note} — {why[:300]}" if ok else f"unreviewed unsafe operation `{op}` in {f} ({cnt} site(s), {allowed} reviewed for this file)")
         # unsafe blocks / unsafe fns per file
         nblk = {}
         for u in crate.unsafe_blocks:
             if not u["from_expansion"]:
                 nblk[u["span"]["file"]] = nblk.get(u["span"]["file"], 0) + 1
+        rb = rv.get("unsafe_blocks", {}).get(crate.kind, {})
+        blk_spare = sum(max(0, c - nblk.get(f, 0)) for f, c in rb.items())
         for f, n_ in sorted(nblk.items()):
-            allowed = rv.get("unsafe_blocks", {}).get(crate.kind, {}).get(f, 0)
-            ctx.ob(f"{crate.kind}:unsafe-blocks:{f}", n_ <= allowed, f, f"{n_} unsafe block(s), {allowed} reviewed" if n_ <= allowed else f"{n_} unsafe block(s) in {f}, only {allowed} reviewed")
+            allowed = rb.get(f, 0)
+            ok = n_ <= allowed
+            if not ok and f in moved_files and n_ - allowed <= blk_spare:
+                # the blocks came along with operations that were accounted for above
+                blk_spare -= n_ - allowed
+                ok = True
+            ctx.ob(f"{crate.kind}:unsafe-blocks:{f}", ok, f, f"{n_} unsafe block(s), {allowed} reviewed for this file" + ("" if n_ <= allowed else " (the rest moved here with reviewed operations)") if ok else f"{n_} unsafe block(s) in {f}, only {allowed} reviewed")
         nfn = {}
         for b in crate.bodies:
             if b.raw.get("unsafe_fn"):
                 nfn[b.file] = nfn.get(b.file, 0) + 1
+        rf = rv.get(crate.kind + "_unsafe_fns", {})
+        fn_spare = sum(max(0, c - nfn.get(f, 0)) for f, c in rf.items())
         for f, n_ in sorted(nfn.items()):
-            allowed = rv.get(crate.kind + "_unsafe_fns", {}).get(f, 0)
-            ctx.ob(f"{crate.kind}:unsafe-fns:{f}", n_ <= allowed, f, f"{n_} `unsafe fn`(s), {allowed} reviewed" if n_ <= allowed else f"{n_} `unsafe fn`(s) in {f}, only {allowed} reviewed")
+            allowed = rf.get(f, 0)
+            ok = n_ <= allowed
+            if not ok and f in moved_files and n_ - allowed <= fn_spare:
+                fn_spare -= n_ - allowed
+                ok = True
+            ctx.ob(f"{crate.kind}:unsafe-fns:{f}", ok, f, f"{n_} `unsafe fn`(s), {allowed} reviewed" if ok else f"{n_} `unsafe fn`(s) in {f}, only {allowed} reviewed")
     hs = deny.hits(list(ctx.facts.all_bodies()), "unsafe-producers")
     hs = [h for h in hs if not h[3].get("exp")]
     for entry, b, bb, t in hs:
